@@ -13,7 +13,7 @@ import e1check
 def gen(rng, cid):
     k = rng.weighted([(1, 1), (2, 4), (3, 4), (4, 3)])
     void = rng.weighted([(0, 3), (1, 1)])
-    nmax = rng.weighted([(2, 2), (3, 3), (4, 3), (6, 3), (9, 2), (14, 1), (40, 0 if not os.environ.get('VERIF_LONG') else 1)])
+    nmax = rng.weighted([(2, 2), (3, 3), (4, 3), (6, 3), (9, 2), (14, 1), (40, 1 if (os.environ.get('VERIF_LONG') or e1check.tier() == 'thorough') else 0)])
     pw = rng.weighted([(2, 1), (4, 2), (6, 1)])          # readwrite probability (tenths)
     pdrop = rng.weighted([(0, 1), (2, 3), (5, 1)])       # dropped-unstarted probability (tenths)
     eager = rng.below(3)                                 # 0: lazy starts, 1: mixed, 2: start early
